@@ -17,7 +17,7 @@ from . import common
 from .common import log, ToolError
 
 EXE = "pvh_pipeline"
-RUN_FORMAT = 4      # bump when the way cases are assembled / rendered in this file changes
+RUN_FORMAT = 5      # bump when the way cases are assembled / rendered in this file changes
 THREADS = os.environ.get("PVH_THREADS", "6")
 TLC_WORKERS = int(os.environ.get("PIPELINE_TLC_WORKERS", "4"))
 
@@ -143,11 +143,27 @@ def render_set(case, idx):
 
 
 TIERS = {
-    # n_mut, n_soup, n_nest, n_fault, n_multi, token cfgs, set cfg
-    "quick": dict(gen=[9000, 1500, 480, 1200, 1500], tok=["PipelineTokens_quick.cfg"], mc="MC_Pipeline_quick.cfg"),
-    "thorough": dict(gen=[120000, 20000, 1440, 12000, 15000],
-                     tok=["PipelineTokens_quick.cfg", "PipelineTokens_thorough3.cfg"], mc="MC_Pipeline_thorough.cfg"),
+    # n_mut, n_soup, n_nest, n_fault, n_multi, n_line, n_struct; token cfgs; module-set cfg; statement-placement cfg
+    "quick": dict(gen=[9000, 1500, 480, 1200, 1500, 4000, 600], tok=["PipelineTokens_quick.cfg"], mc="MC_Pipeline_quick.cfg",
+                  place="MC_Placement_quick.cfg"),
+    "thorough": dict(gen=[120000, 20000, 1440, 12000, 15000, 50000, 6000],
+                     tok=["PipelineTokens_quick.cfg", "PipelineTokens_thorough3.cfg"], mc="MC_Pipeline_thorough.cfg",
+                     place="MC_Placement_quick.cfg"),
 }
+
+
+def placement_items(case):
+    """token kinds of spec/Placement.tla (S G LP L O C I E) -> items of harness/src/flat.rs, as checks/c06.py does:
+    gotos target a final label z, labels get unique names"""
+    out = []
+    for i, k in enumerate(case["b"]):
+        if k == "G":
+            out.append("Gz")
+        elif k == "L":
+            out.append("Lq%d" % i)
+        else:
+            out.append(k)
+    return out + ["Lz"]
 
 
 def cache_dir(tier, seed):
@@ -224,6 +240,26 @@ def _compute_run(tier, seed, d):
                             "ok": r.ok, "violated": r.violated}
     for i, c in enumerate(r.cases):
         cases.append(render_set(c, i))
+    # (a'') every statement placement up to the bound (spec/Placement.tla of C06, read-only): compiled through the
+    # WHOLE pipeline here, so that whatever the analyzers wrongly accept reaches the generator
+    r = _tlc("MC_Placement", cfg["place"], "place", 1500)
+    tlc_stats[cfg["place"]] = {"generated": r.generated, "distinct": r.distinct, "cases": len(r.cases)}
+    items_path = os.path.join(d, "place-items.ndjson")
+    place_path = os.path.join(d, "place-cases.ndjson")
+    seen = set()
+    with open(items_path, "w") as f:
+        for c in r.cases:
+            key = tuple(c["b"])
+            if key in seen:
+                continue
+            seen.add(key)
+            f.write(json.dumps({"id": "place%d" % len(seen), "b": placement_items(c)}) + "\n")
+    pvh(["render-flat", items_path, place_path])
+    with open(place_path) as f:
+        for line in f:
+            cases.append(json.loads(line))
+    os.remove(items_path)
+    os.remove(place_path)
     n_tlc = len(cases)
     # (b) seeded generators of the harness
     gen_path = os.path.join(d, "gen.ndjson")
